@@ -66,6 +66,9 @@ def placements():
         "between-sections": None,
     }
     out = []
+    # mj-raw among the links of a navbar (MJML renders it)
+    out.append(("navbar>mj-raw", docgen.to_mjml(N("mjml", kids=[N("mj-body", kids=[conts["column"](N("mj-navbar", kids=[
+        N("mj-navbar-link", {"href": "https://x"}, text="S7004X"), N("mj-raw", text="<p>S1X</p>")]))])]))))
     for ln, lf in leaves.items():
         for cn, cf in conts.items():
             if cn == "between-sections":
